@@ -24,6 +24,7 @@ pub fn make_cfg(seed: u64, idx: u64) -> gen_::Cfg {
         f.mtime = if k % 2 == 0 { 1_500_000_000 + k as u32 } else { 1_700_000_000 + k as u32 };
         cfg.files.push(f);
     }
+    cfg.late_source_date = idx % 2 == 1;
     cfg.signer = match idx % 3 { 0 => None, 1 => Some("ed25519".into()), _ => Some("rsa4096".into()) };
     cfg
 }
